@@ -10,14 +10,14 @@ import (
 // Region is one open-iterator region instance (IT engine): the code that can run between the
 // creation of a store iterator and its Close, for one binding of the creating function's callbacks.
 type Region struct {
-	Fn      *ssa.Function
-	Iter    StoreOp
-	Entry   *Edge // the call site that enters Fn with the callbacks of this instance (nil: no callback parameters)
-	Funcs   map[*ssa.Function]bool
-	Writes  []StoreOp // writes to the same store inside the region
-	Nested  []StoreOp // iterator creations on the same store inside the region
-	Closed  bool      // a Close() of the iterator exists (deferred or explicit)
-	Instrs  int
+	Fn     *ssa.Function
+	Iter   StoreOp
+	Entry  *Edge // the call site that enters Fn with the callbacks of this instance (nil: no callback parameters)
+	Funcs  map[*ssa.Function]bool
+	Writes []StoreOp // writes to the same store inside the region
+	Nested []StoreOp // iterator creations on the same store inside the region
+	Closed bool      // a Close() of the iterator exists (deferred or explicit)
+	Instrs int
 }
 
 // instrsAfter returns the instructions that can execute after "start" and before an explicit
